@@ -98,6 +98,17 @@ def gen_dynamic(sd, tr):
                 for op in g.sample(range(5), 2 if quick else 5):
                     for na in ((1, 2) if dst != src else (0, 1)):
                         O.append({'rank': rank, 'p': pi, 'dims': dims, 'dst': dst, 'src': src, 'op': op, 'na': na, 'rhs': g.next() % 2})
+            # systematic perfect overlap (same range on both sides, with and without noalias, tensor and expression right-hand side,
+            # every operator): rank 1 - every contiguous and strided range length (vector body + every remainder); higher ranks - a sample
+            if rank == 1:
+                d = dims[0]; po = [((f, l, st),) for st in (1, 2) for f in (0, 1) for l in range(f + 1, d + 1) if admissible(True, d, f, l, st)]
+            else:
+                po = g.sample(combos, min(len(combos), 6 if quick else 40))
+            for c in po:
+                for op in range(5):
+                    for na in (0, 1):
+                        for rhs in (0, 1):
+                            O.append({'rank': rank, 'p': pi, 'dims': dims, 'dst': c, 'src': c, 'op': op, 'na': na, 'rhs': rhs})
     for i, c in enumerate(R): c['id'] = i
     for i, c in enumerate(W): c['id'] = i
     for i, c in enumerate(O): c['id'] = i
